@@ -111,6 +111,34 @@ def parseAttrsArg (s : String) : Option (DictClass × Items) :=
     | [c, items] => some (parseCls c, parseItems items)
     | _ => none
 
+def parseListOp (op arg : String) : ListOp :=
+  if op == "append" then .append (ptok arg)
+  else if op == "remove" then .remove (ptok arg)
+  else if op == "clear" then .clear
+  else if op == "sort" then .sort
+  else if op == "iadd" then .iadd (parseToks (if arg == "_" then "" else arg))
+  else if op == "reverse" then .reverse
+  else if op == "pop" then .pop
+  else .insert0 (ptok arg)
+
+def parseStep (s : String) : Option Step :=
+  match s.splitOn "!" with
+  | ["P", name, raw] => some (.parse (ptok name) (parseRaw raw))
+  | ["N", name, items] => some (.newTag (ptok name) (parseItems items))
+  | ["C", i] => some (.copy i.toNat!)
+  | ["M", i, key, op, arg] => some (.mutate i.toNat! (ptok key) (parseListOp op arg))
+  | ["S", i, kv] =>
+    match kv.splitOn "=" with
+    | [k, v] => some (.set i.toNat! (parseKey k) (parseVal v))
+    | _ => none
+  | _ => none
+
+def showHist : Res Hist → String
+  | .valueError => "valueError"
+  | .ok st =>
+    if st.isEmpty then "-"
+    else " ## ".intercalate (st.map fun p => s!"{stok p.1} {showTag (.ok p.2)}")
+
 def handle : List String → String
   | ["split", s] => let r := splitWs (ptok s); if r.isEmpty then "-" else showToks r
   | ["join", l] => stok (joinSp (parseToks (if l == "-" then "" else l)))
@@ -128,6 +156,8 @@ def handle : List String → String
       fun t => tagSetMany md t (parseSets sets))
   | ["parse", m, dcls, lcls, ondup, name, attrs] =>
     showTag (parseStartTag md pyLower ⟨parseMap m, parseCls dcls, lcls.toNat!⟩ (parseOnDup ondup) (ptok name) (parseRaw attrs))
+  | ["hist", m, dcls, lcls, steps] =>
+    showHist (runHist md pyLower ⟨parseMap m, parseCls dcls, lcls.toNat!⟩ [] ((splitNE "|" steps).filterMap parseStep))
   | _ => "bad-op"
 
 end BS.Drv.C17
